@@ -20,7 +20,7 @@ EXPLANATIONS = {
     "C13": _COMMON + "Decides: for 26 export entry points (4 serializers, ProvDocument.serialize, get_provn x2, prov_to_graph, prov_to_dot, the __eq__/__ne__/__hash__ family, unified x2, flattened) the interprocedural effect closure rooted at the exported object contains only EMPTY-INSERT and MEMO effects (no CONTENT, NS, NS-RESOLVE, LINK, GLOBAL-TABLE, OTHER); no module-level table is mutated; every whole-map reader tolerates empty value sets; id generators are per call; records never share value sets. Not decided: in-process set iteration order, RDF isomorphism.",
     "C14": _COMMON + "Decides: the endpoint-inference table covers formal positions 0 and 1 of every relation class (except influence, documented) with PROV-DM's element kind; the inferred-node sentinel written at creation is the one graph_to_prov filters on; the edge runs from the node of formal position 0 to that of position 1; one add_edge per relation iteration guarded only by 'both ends present'; the conversion starts from unified() unconditionally; graph_to_prov re-adds every node/edge record without value-based de-duplication. Not decided: counts on real graphs.",
     "C15": _COMMON + "Decides: every record-derived value that reaches a DOT sink passes a sanitizer adequate for the sink's context (quoted string: backslash then quote, unconditionally; HTML-like text/attribute: html.escape); style tables cover every record kind / inferred class and relation styles carry the PROV-N label; the shared style table is copied before mutation; the annotation filter and the blank-node decision use the same attribute partition; direction reset. Not decided: Graphviz acceptance, layout.",
-    "C16": _COMMON + "Decides: stream typestate in prov.read (no consuming call on a possibly consumed stream); each serializer discriminates text/binary targets and converts whole contents with explicit UTF-8; registry has four Serializer classes with both methods and read() enumerates it; a path source is opened in binary mode. Not decided: equality of the produced texts/documents; signature-based sniffing heuristics.",
+    "C16": _COMMON + "Decides: stream typestate in prov.read (no consuming call on a possibly consumed stream); each serializer discriminates text/binary targets and converts whole contents with explicit UTF-8; registry has four Serializer classes with both methods and read() enumerates it; a path source is opened in binary mode; a path destination's temporary file is written and closed before the move. Not decided: equality of the produced texts/documents; signature-based sniffing heuristics.",
     "C17": _COMMON + "Decides: the destination handed to the commit call is the caller's path on every reaching definition (identity, or file: URL conversion under an explicit scheme test); no local name is refused (only a non-empty netloc may return early); the commit is dominated by the normal completion of write and close and unreachable from their exceptional exits; the destination is never opened for writing or otherwise touched before the commit. Not decided: atomicity of shutil.move itself (cross-device copies).",
     "C18": _COMMON + "Decides: the record list and the identifier index are mutated only inside insertion points of the bundle, in paired forms; on every path of an insertion point the record is appended to the list, and to the index unless its identifier is None, under its own identifier; every record constructed for a bundle reaches the insertion point; records/get_records return fresh lists and filter by isinstance; lookup resolves its argument through the resolver and answers from this container's index only.",
 }
